@@ -269,7 +269,8 @@ func (i idxField) SetValue(opts *options, elem value, v value) Error {
 	if !ok {
 		return raiseExpectedObject(opts, elem)
 	}
-	if i.i < 0 {
+	// the idx argument of the setters is bounded like an index in a path
+	if i.i < 0 || int64(i.i) > opts.maxIdx {
 		return raiseIndexOutOfBounds(opts, elem, i.i)
 	}
 
